@@ -48,6 +48,8 @@ fn main() {
     }
     let mut ctx = Ctx::new(args);
     watchdog(ctx.prop().to_string(), ctx.tier().pick(50 * 60, 8 * 3600));
+    // harness / infrastructure trouble is never a verdict
+    ctx.soft_prefixes = vec!["harness:".to_string()];
     // a vacuous run must not look like a pass (DESIGN section 5)
     ctx.floor = match ctx.prop() {
         "C36" | "C37" => 2000,
